@@ -353,6 +353,10 @@ impl<'a, F: Field> PartitionWitness<'a, F> {
         let rep_index = self.representative_map[self.target_index(target)];
         let rep_value = &mut self.values[rep_index];
         if let Some(old_value) = *rep_value {
+            #[cfg(feature = "verif_hooks")]
+            if value != old_value && crate::plonk::verif_knobs::get().skip_witness_checks {
+                return Ok(None);
+            }
             if value != old_value {
                 return Err(anyhow!(
                     "Partition containing {:?} was set twice with different values: {} != {}",
